@@ -114,6 +114,15 @@ fn strings() -> Vec<Value> {
         json!(" "),
         json!("%zz%"),
         json!("é/É"),
+        // long runs of 3-, 4- and 2-byte characters behind 0..3 ASCII bytes: whatever byte offset a limit sits at (every power of
+        // two up to 64 KiB, any other), for one of the prefixes it falls INSIDE a character
+        json!(format!("{}", "€".repeat(22000))),
+        json!(format!("a{}", "€".repeat(22000))),
+        json!(format!("ab{}", "€".repeat(22000))),
+        json!(format!("a{}", "𝄞".repeat(17000))),
+        json!(format!("ab{}", "𝄞".repeat(17000))),
+        json!(format!("abc{}", "𝄞".repeat(17000))),
+        json!(format!("a{}", "é".repeat(33000))),
     ]
 }
 
